@@ -41,6 +41,40 @@ theorem round1_close (q : Rat) : |round1 q - q| ≤ 1 / 20 := by
   simp only []
   split_ifs with h1 h2 h3 <;> rw [abs_le] <;> constructor <;> push_cast <;> linarith
 
+/-- rounding to one decimal is `round1` -/
+theorem roundTo_one (q : Rat) : roundTo 1 q = round1 q := by
+  unfold roundTo round1
+  simp only [pow_one]
+
+/-- rounding a value of [0, 100] to one decimal stays in [0, 100] -/
+theorem round1_range (q : Rat) (h0 : 0 ≤ q) (h100 : q ≤ 100) : 0 ≤ round1 q ∧ round1 q ≤ 100 := by
+  unfold round1
+  have hfl : ((q * 10).floor : Rat) ≤ q * 10 := Rat.floor_le _
+  have hf0 : (0 : Int) ≤ (q * 10).floor := Rat.le_floor_iff.mpr (by push_cast; linarith)
+  have hf0' : (0 : Rat) ≤ ((q * 10).floor : Rat) := by exact_mod_cast hf0
+  have hup : ¬ (q * 10 - ((q * 10).floor : Rat) < 1 / 2) → ((q * 10).floor : Rat) + 1 ≤ 1000 := by
+    intro h
+    have h1 : ((q * 10).floor : Rat) < 1000 := by linarith
+    have h2 : (q * 10).floor < 1000 := by exact_mod_cast h1
+    have h3 : (q * 10).floor + 1 ≤ 1000 := by omega
+    exact_mod_cast h3
+  simp only []
+  split_ifs with h1 h2 h3
+  · constructor
+    · apply div_nonneg hf0' (by norm_num)
+    · rw [div_le_iff₀ (by norm_num)]; linarith
+  · have := hup h1
+    constructor
+    · apply div_nonneg (by push_cast; linarith) (by norm_num)
+    · rw [div_le_iff₀ (by norm_num)]; push_cast; linarith
+  · constructor
+    · apply div_nonneg hf0' (by norm_num)
+    · rw [div_le_iff₀ (by norm_num)]; linarith
+  · have := hup h1
+    constructor
+    · apply div_nonneg (by push_cast; linarith) (by norm_num)
+    · rw [div_le_iff₀ (by norm_num)]; push_cast; linarith
+
 theorem pct_cast (u f : Int) :
     (if u + f = 0 then (0 : Rat) else (u : Rat) / ((u + f : Int) : Rat) * 100)
       = if (u : Rat) + (f : Rat) = 0 then 0 else (u : Rat) / ((u : Rat) + (f : Rat)) * 100 := by
